@@ -27,12 +27,11 @@ from vf.runner import Violation
 
 # Tolerances (row-scaled: |Jad - Jfd|_rowmax / (1 + |Jad|_rowmax + |g_row|)).  Central differences with h=1e-6 have
 # truncation ~ h^2 |g'''| and rounding ~ eps*cond*|g|/h ~ 1e-10*cond; worst observed on the unchanged tree over seeds
-# 1-3 quick + thorough: 4.5e-7 (FD) and 1.6e-13 (fwd vs rev) -> fixed at ~100x.
+# 1-3 quick + 2 thorough runs: 5.1e-7 (FD, family S), 7.5e-8 (FD, family K), 8.5e-13 (fwd vs rev) -> fixed at ~100x.
 TOL_FD = 5e-5
-TOL_FD_K = 5e-3      # family K (constraint rows): jacfwd differentiates the *iterates* of the line search (Newton on the step
-                     # size, stopped at ls_tolerance); the derivative of the last iterate lags the converged one by
-                     # O(|alpha_k - alpha*|) ~ sqrt(ls_tolerance): measured 6e-4 with three mutually consistent FD estimates
-TOL_FWD_REV = 2e-11
+TOL_FD_K = 5e-5      # family K (constraint rows, no frictionloss): same constant; worst observed 7.5e-8.  With frictionloss rows
+                     # the bracketing line search makes AD deviate by up to 1.7e-2 (candidate finding F24): excluded.
+TOL_FWD_REV = 1e-10
 H = 1e-6
 CLAMP_EXCL = 1e-3
 
